@@ -338,7 +338,11 @@ def handle (op : String) (c i : Json) : Except String (Json × String) := do
             let ts ← (← J.arr (← J.key c "tables")).mapM fun tj => do
               let ents ← (← J.arr (← J.key tj "entries")).mapM fun e => do pure ((← J.nat (← J.idx e 0)), (← J.str (← J.idx e 1)).toList)
               pure ({ name := (← J.str (← J.key tj "name")).toList, entries := ents } : WTable)
-            pure (J.obj [("core", J.ofStrList ((writeCoreH es ts ds dds ga fs).map String.ofList))], "ok")
+            -- with "exact" the file line for line (writeDbc: header and the empty lines between the sections)
+            if J.isNull (J.keyD c "exact" Json.null) then
+              pure (J.obj [("core", J.ofStrList ((writeCoreH es ts ds dds ga fs).map String.ofList))], "ok")
+            else
+              pure (J.obj [("core", J.ofStrList ((writeDbc es ts ds dds ga fs).map String.ofList))], "ok")
   | "post" =>
     -- i = {"lines": the lines of a file, "final": the projection of the matrix dbc.load returns (names, senders, receivers, comments,
     -- attributes that are neither carriers nor ENUM)}
